@@ -640,10 +640,18 @@ def wrapper_correspondence(ctx, rng, drv):
                 rows_m = np.atleast_2d(rows_m)
                 names_i = [NAMES.index(k) for k in fld.field_names]
                 scale_out = 1.0 + np.abs(ri) + (np.abs(tr) if tr is not None else 0.0) + abs(cfg["mean"])
+                # NaN cells of the source (left by an earlier step, e.g. force_moments of a single value) are outside the
+                # property's domain; array_discrete leaves such cells uninitialised (np.empty_like): not compared
+                undef = np.isnan(src_data) if mname in ("binary", "discrete") else np.zeros(n, dtype=bool)
+                tgt = src if store is True else store
+                ri = np.where(undef, NAN, ri)
+                out_m = np.where(undef, NAN, out_m)
                 ok = names_i == [int(k) for k in names_m] and close(ri, out_m, rtol=1e-9, scale=scale_out)
                 if ok:
                     for k, row in zip(names_i, rows_m):
                         cur = np.array(fld[NAMES[k]], dtype=float)
+                        if NAMES[k] == tgt:
+                            cur, row = np.where(undef, NAN, cur), np.where(undef, NAN, row)
                         if not close(cur, row, rtol=1e-9, scale=1.0 + np.abs(cur)):
                             ok = False
                 if ok:
@@ -712,7 +720,7 @@ def probe_wrappers(ctx, rng):
             ("zinnharvey", dict(conn="high"), lambda y: stats.norm.cdf(y, marg, sd)),
             ("zinnharvey", dict(conn="low"), lambda y: stats.norm.cdf(y, marg, sd)),
         ]
-        if ncode != 2:      # exp(z) leaves BoxCox's range for large z: only for the other normalizers
+        if ncode == 0:      # with a LogNormal / BoxCox normalizer exp(z) is post-processed by another exp / power: overflows
             tests.append(("normal_to_lognormal", {}, lambda y: stats.norm.cdf(np.log(y), marg, sd)))
         for mname, kw, cdf in tests:
             out = impl_call(fld.transform, mname, field="field", store="t1", process=process, keep_mean=keep_mean, **kw)
@@ -827,13 +835,14 @@ def run(ctx):
     try:
         n0 = len(ctx.violations)
         if drv is not None:
-            array_correspondence(ctx, rng, drv)
-            wrapper_correspondence(ctx, rng, drv)
+            # one PRNG stream per stage: a failure in one stage does not change the cases of the others
+            array_correspondence(ctx, C.Rng(ctx.seed, "C19/array"), drv)
+            wrapper_correspondence(ctx, C.Rng(ctx.seed, "C19/wrapper"), drv)
         n_corr = len(ctx.violations) - n0
-        probe_partition(ctx, rng)
-        probe_pointwise(ctx, rng)
-        probe_ks(ctx, rng)
-        probe_wrappers(ctx, rng)
+        probe_partition(ctx, C.Rng(ctx.seed, "C19/partition"))
+        probe_pointwise(ctx, C.Rng(ctx.seed, "C19/pointwise"))
+        probe_ks(ctx, C.Rng(ctx.seed, "C19/ks"))
+        probe_wrappers(ctx, C.Rng(ctx.seed, "C19/wrappers"))
     finally:
         if drv:
             drv.close()
